@@ -66,6 +66,12 @@ theorem applyConfig_in_source (c : Conf) (s : Settings) :
     applyKeys Gen.C16.applyConfigKeys c.lookup s = c.resolve := by
   rw [applyConfig_keys_agree]; exact applyKeys_ref_is_resolve c s
 
+/-- … and the transcription is faithful to the control flow: the body of ApplyConfig is the straight line
+    `lock; queueSize := …; if changed { set; resize the queue if there is one }; three assignments` — every
+    other statement is recorded as an unrecognised row (which `applyConfig_keys_agree` rejects), and
+    there is no `return` that could skip the settings that follow -/
+theorem applyConfig_no_early_exit : Gen.C16.applyConfigReturns = 0 := by decide
+
 /-- `Append` flushes exactly when the source's condition — the `firstTime == 0` split, then the size
     test or the size-or-age test — evaluates to true after the write -/
 theorem append_decision_in_source (C : Codec ρ) (s : State ρ) (r : ρ) :
